@@ -6,7 +6,7 @@
 From Coq Require Import ZArith String Bool Arith Lia List.
 From GM Require Import Base.Res Model.SystemGro Proofs.SystemGroInit.
 Import ListNotations.
-Open Scope nat_scope.
+Local Open Scope nat_scope.
 
 Lemma Forall2_length {A B} (R : A -> B -> Prop) l1 l2 : Forall2 R l1 l2 -> length l1 = length l2.
 Proof. induction 1; simpl; congruence. Qed.
